@@ -269,6 +269,13 @@ func (w *e3World) prepareRemote(s Step) bool {
 			w.fail("pre-merge: %v", err)
 			return false
 		}
+		if mod(s.C, 4) == 3 {
+			// ... and updated locally: the remote update is then a concurrent branch
+			if _, errs := w.n.GQL(fmt.Sprintf(`mutation { update_User(docID: %q, input: {points: 9, flag: true}) { _docID } }`, id)); len(errs) > 0 {
+				w.fail("pre-update: %v", errs)
+				return false
+			}
+		}
 	}
 	w.env.remote = &remoteCommit{docID: id, cid: head.Cid.String(), colID: w.colID}
 	synctest.Wait()
@@ -419,7 +426,11 @@ func runC05(p *Plan, res *Result) {
 		}
 		res.logf("site %d %s %s fired=%v err=%v events=%d", si, site.Kind, kc, fired, cerr != nil, len(evs))
 		if cpanic != "" {
-			res.violate("C05", "panic", "panic/"+cls, si, "%s panicked when %s on %q failed: %s", kind, site.Kind, site.Key, cpanic)
+			leak := ""
+			if lk := w.n.Store.Leaks; len(lk) > 0 {
+				leak = "; iterator left open by " + lk[len(lk)-1]
+			}
+			res.violate("C05", "panic", "panic/"+cls, si, "%s panicked when %s on %q failed: %s%s", kind, site.Kind, site.Key, cpanic, leak)
 			return
 		}
 		kNow := w.n.Store.DurableLen()
